@@ -56,6 +56,9 @@ class C13Ops(Harness):
         # normalisations of 2D histograms along one axis / overall: the element type is promoted to hold fractions, never narrowed
         for t0, op in itertools.product(("int64", "float32", "float128", "int16"), ("partial", "normalize")):
             yield f"op2d-{t0}-{op}", dict(t0=t0, op=op, t1=None, nd=True)
+        # cumulative sums along an axis: numpy accumulates narrow integers in int64 - the histogram reports what its arrays hold
+        for t0 in ("int16", "int32", "int64", "float32", "float64"):
+            yield f"op2d-{t0}-accumulate", dict(t0=t0, op="accumulate", t1=None, nd=True)
 
     def declare(self, cx, p):
         x = {"f": cx.ints("f", 2, 0, 50), "q": cx.ints("q", 2, 0, 50), "g": cx.ints("g", 2, 0, 50), "k": cx.int("k", 1, 8), "n": cx.pyint("n", 1, 3), "v": cx.pyfloat("v")}
@@ -161,6 +164,8 @@ class C13Ops(Harness):
                 return h.normalize()
             if op == "partial":
                 return h.partial_normalize(0)
+            if op == "accumulate":
+                return h.accumulate(0)
             if op == "merge":
                 return h.merge_bins(2)
             h.dtype = t1
@@ -245,6 +250,8 @@ class C13Ops(Harness):
             exp_dt, ref = promote(t0, "float64"), [f[0] * k4, f[1] * k4]
         elif op in ("div", "idiv"):
             exp_dt, ref = promote(t0, "float64"), [z3.ToReal(f[0]) / z3.ToReal(n), z3.ToReal(f[1]) / z3.ToReal(n)]
+        elif op == "accumulate":
+            exp_dt, ref = (promote(t0, "int64") if t0[0] == "i" else t0), [f[0], f[0] + f[1]]
         elif op in ("normalize", "partial"):
             exp_dt, ref = promote(t0, "float64"), [z3.ToReal(f[0]) / z3.ToReal(f[0] + f[1]), z3.ToReal(f[1]) / z3.ToReal(f[0] + f[1])]
         else:
